@@ -90,6 +90,7 @@ type RunDesc struct {
 	WorldReps []RepSpec `json:"world_reps,omitempty"`
 	Tasks     [][]Op    `json:"tasks"`
 	// replay files only
+	Pair       *RunDesc `json:"pair,omitempty"` // C15 cross-process findings: a second history, executed in its own process
 	Expect     string `json:"expect,omitempty"`
 	Reproduced string `json:"reproduced,omitempty"`
 	Note       string `json:"note,omitempty"`
@@ -139,6 +140,7 @@ type RunStats struct {
 	SwitchPairs  []uint64       `json:"switch_pairs,omitempty"`  // hashes of (pre-empted site, resumed-at site)
 	CaseKeys     []uint64       `json:"case_keys,omitempty"`     // hashes of non-trivial distinct cases (per-property rule)
 	CrossKeys    [][2]uint64    `json:"cross_keys,omitempty"`    // C15: (key hash, result hash) for cross-process comparison
+	CrossDetail  [][3]string    `json:"cross_detail,omitempty"`  // C15, replay of a pair only: (key hash, key, result)
 	DescHash     uint64         `json:"desc_hash"`
 	Sample       string         `json:"sample,omitempty"`
 }
